@@ -127,7 +127,8 @@ def _spec_allowed(cr: List[int], cl: int, cn: int, pr: List[int], pl: int, pn: i
 # Engine S
 # ======================================================================================================================
 POOL = [0, 1, 10, 9, 2]               # component / pre-release number values
-NP = B(3, 4)
+NP_Q, NP_T = 3, 4        # partitions are computed in the runner process, where B() always sees the quick tier: use the literals there
+NP = B(NP_Q, NP_T)
 NSP = B(3, 5)
 LONG = ["", "alpha", "beta", "c"]
 KS = KMAX
@@ -149,7 +150,7 @@ def _spell(rel: List[int], lab: int, num: int, sp: int) -> str:
 
 @obligation(quick=150, thorough=600,
             partitions_quick=[f"k == {k}" for k in range(1, KS + 1)],
-            partitions_thorough=["k == 1", "k == 2", "k == 4"] + [f"k == 3 and i0 == {j}" for j in range(NP)],
+            partitions_thorough=["k == 1", "k == 2", "k == 4"] + [f"k == 3 and i0 == {j}" for j in range(NP_T)],
             what="real semver_to_pep440(pep440_to_semver(v)) == normalised v on versions assembled from pooled components "
                  "(release length 1..4, optional a/b/rc pre-release, non-normalised spellings)",
             bounds={"release length": "1..4", "component / number pool": "NP values of [0,1,10,9] (3 quick / 4 thorough)",
